@@ -168,12 +168,11 @@ class BaseSection(base.Sectionable):
 
     @name.setter
     def name(self, new_value):
-        if self.name == new_value:
-            return
-
         # Make sure name cannot be set to None or empty
         if not new_value:
-            self._name = self._id
+            new_value = self._id
+
+        if self.name == new_value:
             return
 
         curr_parent = self.parent
